@@ -176,14 +176,13 @@ class Engine:
                 segs = tail.split('::')
                 # method = first plain segment of tail; suffix = closures/promoted
                 rec['tail'] = tail
-                rec['method'] = segs[0] if m else segs[-1]
-                rec['is_plain'] = ('{closure' not in tail and 'promoted[' not in tail)
+                rec['method'] = segs[-1]
+                rec['is_plain'] = ('{closure' not in tail and 'promoted[' not in tail and mir.headers[name].startswith('fn '))
                 self.records.append(rec)
         self.by_method = {}
         for r in self.records:
             if r['is_plain']:
-                key = r['tail'].split('::')[0] if r['file'] else r['name'].split('::')[-1]
-                self.by_method.setdefault(key, []).append(r)
+                self.by_method.setdefault(r['method'], []).append(r)
         self.by_name = {r['name']: r for r in self.records}
 
     def _first_param_ty(self, rec):
@@ -802,6 +801,12 @@ class Engine:
             vi = self.variant_index(segs[-2], segs[-1])
             if vi is not None:
                 return Enum(segs[-2], vi, {vi: Tup(vals)})
+        if dest_ty:
+            # variant printed without its enum (imported name): resolve through the destination type
+            en = last_seg(dest_ty)
+            vi = self.variant_index(en, segs[-1])
+            if vi is not None:
+                return Enum(en, vi, {vi: Tup(vals)})
         return Tup(vals, segs[-1])
 
     def binop(self, op, a, b):
